@@ -8,7 +8,7 @@ import (
 
 func init() {
 	Props["C05"] = PropDef{
-		Explanation: "T-VARLEN: Len() of VarInt/VarLong equals the LEB128 length of the two's-complement pattern and equals the byte count WriteToBytes returns (decided by evaluating the integer control skeleton at every breakpoint of the code and of the LEB128 length function); WriteTo emits exactly vi[:n]; the decode loops read at most MaxVarIntLen / MaxVarLongLen bytes. Not decided: the emitted bit pattern and the decoded value (shift/mask arithmetic over run-time values).",
+		Explanation: "T-VARLEN decision-table extraction by evaluating the integer control skeleton at all breakpoints; T-BITFIELD disjoint ranges + group order of the 7-bit groups; loop-counter cap analysis; R-NOBUF. Decided: Len() = bytes reported by WriteToBytes = LEB128 length for every value; the unrolled encoder places group j at byte j with disjoint fields; WriteTo emits vi[:n]; decoders read at most MaxVarIntLen/MaxVarLongLen bytes through a one-byte adapter with no read-ahead. The decoded value's arithmetic is not decided.",
 		Run: func(c *Ctx) []core.Ob {
 			obs := c.VarLen()
 			obs = append(obs, filterObs(c.BitFields("net/packet"), func(o core.Ob) bool { return strings.Contains(o.Key, "VarInt") || strings.Contains(o.Key, "VarLong") })...)
@@ -18,7 +18,7 @@ func init() {
 		},
 	}
 	Props["C14"] = PropDef{
-		Explanation: "T-REGIDX: every access of the [32][32] offsets/Timestamps tables is indexed [z][x], the orientation setHead (4*(z*32+x)) and the flat big-endian transfer in Load/CreateWriter use on disk. R-ORDER: the over-limit refusal dominates every state change and file write of WriteSector; every in-memory header update is followed by setHead; Load's occupancy scan visits every entry; the free-space search accepts a position only after looking up every sector it needs. R-TLG: the declared chunk length in ReadSector is sign- and range-checked before allocation. Not decided: disjointness of live sector runs over all histories, first-fit search, read-back equality.",
+		Explanation: "T-REGIDX index orientation and slot offsets; R-ORDER dominance / must-follow on an inlined view (refusal, header and occupancy mirroring, Load and table loops, free-space search); R-TLG; R-TRUNC signed narrowing; R-ERRFLOW. Decided: Index orientation agrees with the file layout and both header slots are written at their offsets; the over-limit refusal dominates all mutation and bounds the packed sector count; header and occupancy stay mirrored; Load and table loops cover every entry; location fields are not sign-extended. Disjointness over histories is not decided.",
 		Run: func(c *Ctx) []core.Ob {
 			obs := c.RegionIndex()
 			obs = append(obs, c.RegionOrder()...)
@@ -33,7 +33,7 @@ func init() {
 		},
 	}
 	Props["C15"] = PropDef{
-		Explanation: "R-ORIGIN: only CreateWriter/WriteSector/PadToFullSector/writeAt write the backing file; WriteSector's data write is positioned only from this chunk's own header slot or from findSpace; setHead receives WriteSector's own (x, z). R-ORDER: header update mirrored to disk; Load rebuilds occupancy from every header entry; the free-space search looks up every sector of a run before accepting it. A necessary condition of crash isolation (no physical write is addressed by another chunk's slot). Not decided: that the chosen run is free in every reachable allocation state and crash prefix.",
+		Explanation: "R-ORIGIN who-may-write + value-origin of the seek target; R-ORDER header / occupancy mirroring, Load, free-space search. Decided: No physical write of WriteSector is addressed by anything but this chunk's own slot and run; every change of the occupancy map is mirrored to the header. That the chosen run is free in every reachable state / crash prefix is not decided.",
 		Run: func(c *Ctx) []core.Ob {
 			obs := c.RegionOrigin()
 			for _, o := range c.RegionOrder() {
@@ -47,7 +47,7 @@ func init() {
 		},
 	}
 	Props["C16"] = PropDef{
-		Explanation: "T-RCONFRAME: the writer's length field counts exactly the fixed bytes that follow (4+4+2) plus the payload, and the reader's minimum, slice offsets and trailer equal the writer's constants; T-ENDIAN: little-endian on both sides. R-TLG: the declared length is proven in [10, MaxRCONPackageSize] at the allocation and at every slice expression. R-POLARITY: AcceptLogin succeeds only on the password-equal edge (echoing the id) and fails with id -1 otherwise; DialRCON and Resp accept only the request id in use. Not decided: payload equality, writer-side size limit.",
+		Explanation: "T-RCONFRAME / T-ENDIAN table agreement incl. writer-side limit; R-TLG bounds; R-POLARITY; R-ORIGIN request id; R-RAWREAD; R-NOBUF. Decided: Writer length constants = reader minimum / offsets / trailer, a writer-side limit is on the declared length, little-endian both sides, declared length proven in range, the body is read in full, login success only on the password-equal edge, responses under the current id.",
 		Run: func(c *Ctx) []core.Ob {
 			obs := c.RCONFrame()
 			obs = append(obs, c.RCONPolarity()...)
@@ -61,12 +61,11 @@ func init() {
 		},
 	}
 	Props["C18"] = PropDef{
-		Explanation: "R-POLARITY + R-ORIGIN: VerifySignature returns true only when rsa.VerifyPKCS1v15 returned nil and the key operand is the package-level key parsed from the embedded DER; PublicKey.Verify returns that verdict or false. Not decided: the offline UUID value, the session-hash value and the equality of the two authDigest copies (value-level arithmetic).",
+		Explanation: "R-POLARITY; R-ORIGIN (embedded key, immutable trust anchor, NameToUUID inputs); R-ORDER writers closed inside-out, ripple carry; R-TRUNC copy-into-fixed; T-BITFIELD. Decided: A true verdict only when RSA verification succeeded against the embedded key, which nothing reassigns; the offline UUID hashes the whole name; the two's-complement carry is taken from the right side of the increment in both copies. Digest values are not decided.",
 		Run: func(c *Ctx) []core.Ob {
 			obs := c.SignaturePolarity()
 			obs = append(obs, c.OfflineUUIDInputs()...)
 			obs = append(obs, c.SignatureHashOrder()...)
-			obs = append(obs, c.BitFields("offline")...)
 			obs = append(obs, c.RippleCarry("bot", "server/auth")...)
 			obs = append(obs, c.TrustAnchorImmutable("yggdrasil/user")...)
 			obs = append(obs, c.FixedBufferCopies("offline", "yggdrasil/user", "bot", "server/auth")...)
